@@ -138,16 +138,26 @@ def one(rep, prog, cfg):
                   % (k, INTO in calls, (B + "handle_start_field") in calls, sorted(got[k])))
 
     # ---- C14.boundary: is_start_field ⊆ accepted by handle_start_field; only file sets url -----------
-    icases, icells = tables.string_cases(isf, extra_cells=ENTRY_STARTS)
+    icmps = tables.str_compares(isf, branchless=True)
+    icases, icells = tables.string_cases(isf, icmps, extra_cells=ENTRY_STARTS)
     accepts = set()
     for cell in icells:
         vals = set()
+        cmp_dest = {c["dest"]: c for c in icmps}
         for bb in icases[cell]:
             for s in isf.blocks[bb]["s"]:
                 if s["k"] == "assign" and s["place"]["l"] == 0 and s["rv"]["k"] == "use":
                     c = op_const(s["rv"]["op"])
                     if c is not None and c["ty"] == "bool":
                         vals.add(bool(c.get("int")))
+                    elif op_local(s["rv"]["op"]) in cmp_dest:
+                        # `a == "x" || .. || f == "z"`: the last comparison's result is the value
+                        cc = cmp_dest[op_local(s["rv"]["op"])]
+                        vals.add(cell != tables.OTHER and (cc["lit"].lower() == cell.lower() if cc["ci"] else cc["lit"] == cell))
+            t = isf.blocks[bb]["t"]
+            if t["k"] == "call" and t["dest"]["l"] == 0 and not t["dest"]["p"] and bb in {c["bb"] for c in icmps}:
+                cc = [c for c in icmps if c["bb"] == bb][0]
+                vals.add(cell != tables.OTHER and (cc["lit"].lower() == cell.lower() if cc["ci"] else cc["lit"] == cell))
         if vals == {True}:
             accepts.add(cell)
         elif vals != {False}:
